@@ -288,6 +288,28 @@ theorem regexp_roundtrip {R : Type} (compile : Str → Option R) (s : Str) (v : 
       simp only [regexpStr, regexpSet, if_neg hne, hr]
     · cases h
 
+/-- Regexp with its surface syntax (`perlRe`: delimiter, escapes, flags) modelled and only the `re`
+engine a parameter: every text `set` accepts — `m/…/flags`, `/…/`, braces, any delimiter —
+reloads to the same value from the text `__str__` prints -/
+theorem regexp_text_roundtrip {R : Type} (engine : Str → Str → Option R) (s : Str) (v : Option (Str × R))
+    (h : regexpSetSurface engine s = .ok v) : regexpSetSurface engine (regexpStr v) = .ok v := by
+  unfold regexpSetSurface at h
+  split at h
+  · cases h; simp [regexpStr, regexpSetSurface]
+  · rename_i hne
+    split at h
+    · rename_i pat fl hp
+      split at h
+      · rename_i r hr
+        cases h
+        simp only [regexpStr, regexpSetSurface, if_neg hne, hp, hr]
+      · cases h
+    · cases h
+    · cases h
+
+example : perlRe "m{a\\}b}i".toList = .ok "a\\}b".toList "I".toList ∧ perlRe "s/a/b/".toList = .bad ∧
+    perlRe "/a\\/b/x/".toList = .ok "a/b/x".toList [] ∧ perlRe "m#a\\#b#".toList = .ok "a\\#b".toList [] := by decide
+
 /-! ### the file always loads -/
 
 /-- the extracted `CONF_FILE_HEADER` consists of complete comment / blank lines -/
